@@ -36,6 +36,8 @@ MOUNTS = {
     "v5/codec/packet/mod.rs": [("verif_v5_packet", "h_v5_packet.rs")],
     "v5/shared.rs": [("verif_v5_shared", "h_v5_shared.rs")],
     "v3/shared.rs": [("verif_v3_shared", "h_v3_shared.rs")],
+    "v3/handshake.rs": [("verif_v3_handshake", "h_v3_handshake.rs")],
+    "v5/handshake.rs": [("verif_v5_handshake", "h_v5_handshake.rs")],
 }
 # mounted in the REPLAY flavour only (the Kani flavour compiles items extracted from these files)
 MOUNTS_REPLAY_ONLY = {
@@ -64,7 +66,7 @@ SHADOW_VEC = [
     "v5/codec/packet/connect.rs", "v5/codec/packet/disconnect.rs",
     "v5/codec/packet/pubacks.rs", "v5/codec/packet/publish.rs",
     "v5/codec/packet/subscribe.rs",
-    "v3/shared.rs",
+    "v3/shared.rs", "v3/sink.rs", "v5/sink.rs",
 ]
 
 # topic.rs: capacity-8 instance, plus the `vec!` macro (one non-test use, `vec![]`) by a
@@ -85,6 +87,7 @@ SLICE_FILES = [
     "v5/codec/packet/pubacks.rs", "v5/codec/packet/publish.rs",
     "v5/codec/packet/subscribe.rs",
     "payload.rs", "v5/shared.rs", "v3/shared.rs", "io.rs", "v5/dispatcher.rs",
+    "v3/sink.rs", "v5/sink.rs", "v3/handshake.rs", "v5/handshake.rs",
 ]
 
 
